@@ -82,6 +82,12 @@ fn header_variants() -> Vec<(&'static str, Vec<String>, bool)> {
         ("double-space", vec![format!("Authorization: Basic  {}", b(USER, PASS))], false),
         ("suffix-extended", vec![format!("Authorization: Basic {}", b(USER, &format!("{}x", PASS)))], false),
         ("bearer", vec![format!("Authorization: Bearer {}", b(USER, PASS))], false),
+        ("empty-value", vec!["Authorization:".to_string()], false),
+        ("scheme-only", vec!["Authorization: Basic".to_string()], false),
+        ("truncated", vec![format!("Authorization: Basic {}", &b(USER, PASS)[..b(USER, PASS).len() - 3])], false),
+        ("trailing-garbage", vec![format!("Authorization: Basic {}AAAA", b(USER, PASS))], false),
+        ("trailing-second-credential", vec![format!("Authorization: Basic {}, Basic asdfgh==", b(USER, PASS))], false),
+        ("leading-space-in-value", vec![format!("Authorization: \t Basic {}", b(USER, PASS))], true),
         ("correct", vec![http::basic(USER, PASS)], true),
     ]
 }
@@ -279,6 +285,9 @@ fn sweep(ctx: &WorkerCtx, rep: &mut WorkerReport, auth: bool, methods: &[String]
                             break 'outer;
                         }
                         refused_methods.insert(m.clone());
+                        if rep.samples.len() < 2 {
+                            rep.sample(json!({"cell": cell, "request": body, "response": v}));
+                        }
                         if form.starts_with("batch-") {
                             // the permitted elements of the same batch are served
                             for id in [1, 2] {
